@@ -21,7 +21,7 @@ class PrepError(Exception):
     pass
 
 
-def prepare(dest=None, log=None):
+def prepare(dest=None, log=None, only_modules=None):
     log = log if log is not None else []
     if dest is None:
         dest = tempfile.mkdtemp(prefix="fpv-", dir=os.environ.get("VERIF_TMP", tempfile.gettempdir()))
@@ -50,7 +50,24 @@ def prepare(dest=None, log=None):
         log.append("compat: fastpasta/src/init.rs drop statement human_panic::setup_panic!();")
     # 2/3. attach
     att = json.load(open(VERIF + "/contracts/kani/attach.json"))
+    wanted = None
+    if only_modules is not None:
+        # attach only the harness modules needed by this run (closed under declared dependencies), so that
+        # a module that no longer compiles against a changed /repo affects only the properties that use it
+        wanted = set(att.get("always", [])) | set(only_modules)
+        changed = True
+        while changed:
+            changed = False
+            for m in list(wanted):
+                for d in att.get("deps", {}).get(m, []):
+                    if d not in wanted:
+                        wanted.add(d)
+                        changed = True
     for rel, mods in att["modules"].items():
+        if wanted is not None:
+            mods = [m for m in mods if m in wanted]
+            if not mods:
+                continue
         p = src + "/" + rel
         if not os.path.exists(p):
             raise PrepError(f"lost anchor: module file {rel} does not exist")
